@@ -104,7 +104,11 @@ MLELEM = [  # single elements of the special parse modes that span lines themsel
     "f(a=(1,\n 2), b=[\nc, d], **{\n'k': v})\nclass K(m=(\n M)): pass",
     "def f(a: (\n int) = (2,\n 3), *b: [\n c]): pass\nwith (yield\n x) as (p,\n q): pass\nfrom m import (a as\n b)",
 ]
-PROGS = BASE + EXTRA + TRICKY + PARS + LOCS + MULTILINE + FSTRDBG + DECOS + MLFIRST + MLELEM
+CMTOPS = [  # comments that contain the characters of the operator which follows on the next line
+    "t = (a  # a - b + c\n     - b)\nu = (c  # * ** // %\n     ** d)\nv = [e  # << >> < >\n     << f]",
+    "w = (g  # and or not\n     and h  # or\n     or i)\nx = (j  # < <= is not in\n     is not k  # not in\n     not in l)\ny = (-  # - ~\n     m)",
+]
+PROGS = BASE + EXTRA + TRICKY + PARS + LOCS + MULTILINE + FSTRDBG + DECOS + MLFIRST + MLELEM + CMTOPS
 for _p in PROGS:
     ast.parse(_p)
 
